@@ -40,6 +40,8 @@ type vLogger struct {
 	records []vRecord
 	// onReceived is called at the moment a file is logged (ordering oracles)
 	onReceived func(name string)
+	// onParse is called whenever the stage replays the log
+	onParse func()
 }
 
 func (l *vLogger) Received(f sts.Received) {
@@ -59,6 +61,9 @@ func (l *vLogger) WasReceived(name, hash string, after, before time.Time) bool {
 }
 
 func (l *vLogger) Parse(handler func(name, renamed, hash string, size int64, t time.Time) bool, after, before time.Time) bool {
+	if l.onParse != nil {
+		l.onParse()
+	}
 	for _, r := range l.records {
 		if !l.visible(r, after) {
 			continue
